@@ -177,10 +177,7 @@ def _substitute_original_strings(original_source: str, new_source: str) -> str:
             continue
 
         # Several strings next to each other, on lines of their own, would be indented again
-        quotes = most_common_original_formatting.lstrip("bBfFrRuU")[:3]
-        if "\n" in most_common_original_formatting and not (
-            quotes in {"'''", '"""'} and most_common_original_formatting.count(quotes) == 2
-        ):
+        if not _is_single_line_or_single_literal(most_common_original_formatting):
             continue
 
         original_modifiers = set()
@@ -215,6 +212,16 @@ def _substitute_original_strings(original_source: str, new_source: str) -> str:
     return _replace_nodes(new_source, replacements)
 
 
+def _is_single_line_or_single_literal(formatting: str) -> bool:
+    """Whether a string's spelling is on one line, or is one triple quoted literal."""
+    if "\n" not in formatting:
+        return True
+
+    literal = formatting.lstrip("bBfFrRuU")
+    quotes = literal[:3]
+    return quotes in {"'''", '"""'} and literal.endswith(quotes) and literal.count(quotes) == 2
+
+
 def _substitute_original_fstrings(original_source: str, new_source: str) -> str:
     """Ensure consistent string formattings in new and old source.
 
@@ -237,7 +244,8 @@ def _substitute_original_fstrings(original_source: str, new_source: str) -> str:
     for node in core.walk(original_ast, ast.JoinedStr):
         code = core.get_code(node, original_source)
         unparsed_code = core.unparse(node)
-        if core.is_valid_python(code):
+        # Several f-strings next to each other, on lines of their own, would be indented again
+        if core.is_valid_python(code) and _is_single_line_or_single_literal(code):
             original_string_formattings[unparsed_code].append(code)
 
     replacements = {}
